@@ -178,6 +178,8 @@ EXTRA_SEEDS += [
 # work that must not be proportional to the numeric value of a literal
 EXTRA_SEEDS += [
     "{% if (1..1e18) contains 'a' %}y{% endif %}{% if 'a' in (1..1e18) %}y{% endif %}{% if (1..1e18) contains 2.5 %}y{% endif %}",
+    "{% for i in (1..1000000000000) offset: 999999999990 limit: 3 %}{{ i }}{% endfor %}",
+    "{% for i in (1..1000000000000) limit: 2 %}{{ i }}{% endfor %}{% for i in (1..1000000000000) offset: continue limit: 2 %}{{ i }}{% endfor %}",
     "{% if (1..1e18) contains nil %}y{% endif %}{% if (1..1e18) contains nosuch %}y{% endif %}{% if (1..1e18) contains 7 %}y{% endif %}",
 ]
 
